@@ -76,19 +76,21 @@ pub struct Setup {
     pub buffer: usize,
     pub weight_fn: WeightFn,
     pub hash_fn: HashFn,
+    /// where the harness clock starts (ms since the UNIX epoch); T0_MS unless a scenario is about the epoch itself
+    pub t0_ms: u64,
 }
 
 impl Default for Setup {
     fn default() -> Self {
-        Setup { weight: 100, counters: 16, capacity: 8, shards: 2, queue: 1, pool: 1, buffer: 2, weight_fn: WeightFn::Const { c: 1, ttl_extra: 0 }, hash_fn: HashFn::Identity }
+        Setup { weight: 100, counters: 16, capacity: 8, shards: 2, queue: 1, pool: 1, buffer: 2, weight_fn: WeightFn::Const { c: 1, ttl_extra: 0 }, hash_fn: HashFn::Identity, t0_ms: T0_MS }
     }
 }
 
 impl Setup {
     pub fn describe(&self) -> String {
         format!(
-            "W={} counters={} shards={} queue={} pool={} buffer={} wfn={:?} hfn={:?}",
-            self.weight, self.counters, self.shards, self.queue, self.pool, self.buffer, self.weight_fn, self.hash_fn
+            "W={} counters={} shards={} queue={} pool={} buffer={} wfn={:?} hfn={:?}{}",
+            self.weight, self.counters, self.shards, self.queue, self.pool, self.buffer, self.weight_fn, self.hash_fn, if self.t0_ms != T0_MS { format!(" clock-origin={}ms", self.t0_ms) } else { String::new() }
         )
     }
 }
@@ -282,7 +284,7 @@ pub fn build_config(setup: &Setup, clock: HarnessClock) -> crate::cache::config:
 
 impl Env {
     pub fn new(setup: Setup) -> Env {
-        let now_ms = Arc::new(AtomicU64::new(T0_MS));
+        let now_ms = Arc::new(AtomicU64::new(setup.t0_ms));
         let clock = HarnessClock { now_ms: now_ms.clone(), is_point: world::cfg().clock_is_point };
         let config = build_config(&setup, clock);
         let (cache, bg) = world::constructing(|| CacheD::new(config));
@@ -591,6 +593,7 @@ pub struct Obs {
     pub weights: Vec<(u64, K, u64, i64)>,
     pub weight_used: i64,
     pub max_weight: i64,
+    pub policy_max_weight: i64,
     /// (shard, id, expiry ms), sorted
     pub ttl: Vec<(usize, u64, u64)>,
     pub buffered: Vec<Vec<u64>>,
@@ -643,7 +646,10 @@ pub fn observe(env: &Env) -> Obs {
         store,
         weights,
         weight_used: cache.total_weight_used(),
-        max_weight: policy.verif_cache_weight().get_max_weight(),
+        // the limit the properties speak about is the *configured* cache weight; what the policy was given is
+        // checked against it by `accounting_violations`
+        max_weight: env.setup.weight,
+        policy_max_weight: policy.verif_cache_weight().get_max_weight(),
         ttl,
         buffered: cache.verif_pool().verif_buffered(),
         stats,
@@ -663,7 +669,7 @@ impl Obs {
     pub fn brief(&self) -> String {
         format!(
             "now={} store={:?} weights={:?} used={}/{} ttl={:?} buffered={:?} stats={:?}",
-            self.now_ms - T0_MS,
+            self.now_ms.wrapping_sub(T0_MS) as i64,
             self.store.iter().map(|(k, v, id, e, d)| format!("{}=>{}#{}{}{}", k, v, id, e.map(|e| format!("@{}", e as i64 - T0_MS as i64)).unwrap_or_default(), if *d { "~del" } else { "" })).collect::<Vec<_>>(),
             self.weights.iter().map(|(id, k, _h, w)| format!("#{}:{}w{}", id, k, w)).collect::<Vec<_>>(),
             self.weight_used,
@@ -679,6 +685,9 @@ impl Obs {
 /// entries are in bijection (by key and id) and `weight_used` is the sum of the charged weights.
 pub fn accounting_violations(o: &Obs) -> Vec<String> {
     let mut out = Vec::new();
+    if o.policy_max_weight != o.max_weight {
+        out.push(format!("the admission policy works with a cache weight of {} but {} was configured", o.policy_max_weight, o.max_weight));
+    }
     let sum: i64 = o.weights.iter().map(|w| w.3).sum();
     if sum != o.weight_used {
         out.push(format!("weight_used={} but the charged weights sum to {}", o.weight_used, sum));
